@@ -6,6 +6,12 @@ import vf
 PANIC = {"panic"}
 
 
+def traces(chk, gen, check, quick=(4, 600), thorough=(16, 3000), note=None):
+    """code -> spec: seeded random executions of the real crate validated against Trace_Api.tla."""
+    count, n = quick if chk.tier == "quick" else thorough
+    return chk.add_traces(f"trace_{gen}", gen, n, count, check, note=note, timeout=2400)
+
+
 def tokens(chk, alpha, maxlen, relevant, nontrivial, workers=12, timeout=1500):
     tag = f"tokens_{alpha}{maxlen}"
     info, summ = vf.run_model(tag, "MC_Tokens.tla", {"MaxLen": maxlen, "AlphaName": alpha}, chk.outdir,
@@ -27,6 +33,9 @@ def c13(chk):
         tokens(chk, "wide", 5, rel, ["if"], workers=16)
         tokens(chk, "call", 6, rel, ["if"], workers=16)
         tokens(chk, "assign", 5, rel, ["if"], workers=16)
+    traces(chk, "fuzz", "trace_fuzz", quick=(4, 2000), thorough=(16, 20000),
+           note="random strings of up to 40 characters over lexer-relevant fragments: the specification classifies each "
+                "(lexical error / not derivable / well-formed / unspecified) and the recorded precompilation outcome must agree")
 
 
 def c05(chk):
@@ -39,6 +48,9 @@ def c05(chk):
     else:
         tokens(chk, "seq", 9, rel, ["wf_comma_and_semicolon"], workers=16, timeout=3000)
         tokens(chk, "seqas", 7, rel, ["wf_comma_and_semicolon"], workers=16, timeout=3000)
+    traces(chk, "programs", "trace_programs",
+           note="random programs with nested tuples / chains / assignments, random redundant parentheses and separators: "
+                "recorded tree, value, context and call log must be the specification's")
 
 
 def c02(chk):
@@ -52,6 +64,9 @@ def c02(chk):
         tokens(chk, "ops", 5, rel, ["wf_len3"], workers=16)
         tokens(chk, "core", 6, rel, ["wf_len3"], workers=16, timeout=3000)
         tokens(chk, "assign", 5, rel, ["wf_len3"], workers=16)
+    traces(chk, "programs", "trace_programs",
+           note="random ASTs to depth 5 rendered with required + random redundant parentheses; the specification re-parses the "
+                "recorded source and the recorded tree must equal its tree")
 
 
 def c14(chk):
@@ -75,6 +90,8 @@ def c01(chk):
     else:
         tokens(chk, "core", 6, PANIC, ["if", "wf", "unspec"], workers=16, timeout=3000)
         tokens(chk, "wide", 5, PANIC, ["if", "wf", "unspec"], workers=16)
+    traces(chk, "fuzz", "trace_fuzz", quick=(4, 2000), thorough=(16, 20000),
+           note="random strings: a recorded panic matches no action of the specification")
 
 
 def c03(chk):
@@ -88,6 +105,9 @@ def c03(chk):
                               workers=12 if chk.tier == "quick" else 16, env_extra={"PRIMS": prims})
     chk.add_model(info, summ, {"op", "panic"}, ["op_nontrivial"],
                   note=f"16 operators x pool^2 ('{pool}' pool of Pools.tla)")
+    traces(chk, "ops", "trace_ops", quick=(4, 2500), thorough=(16, 12000),
+           note="random operand pairs: full-range i64 (recomputed on limbs by Int64.tla), random bit-pattern doubles from a "
+                "per-trace pool (primitives by primgen), strings, booleans, tuples")
 
 
 def c10(chk):
@@ -127,6 +147,9 @@ def c04(chk):
     else:
         ctx_model(chk, "small", {"history", "panic"}, workers=16)
         ctx_model(chk, "full", {"history", "panic"}, simulate=(3000, 40))
+    traces(chk, "histories", "trace_histories", quick=(4, 1500), thorough=(16, 8000),
+           note="random histories of 200 operations over 12 names and two slots with full-range values; the abstract contexts "
+                "are carried along by Trace_Api.tla and every recorded projection must equal them")
 
 
 PROG_FLOATS = [[0, 0, 0, 0], [16368, 0, 0, 0], [16384, 0, 0, 0], [16392, 0, 0, 0], [16400, 0, 0, 0], [16404, 0, 0, 0],
@@ -149,6 +172,9 @@ def c08(chk):
                 "non-trivial = distinct (program, context) cases")
     prog_model(chk, "order", 2, {"order", "panic"}, ["order_nontrivial"],
                workers=12 if chk.tier == "quick" else 16, timeout=3000)
+    traces(chk, "programs", "trace_programs",
+           note="random programs of up to ~30 atoms with assignments and recording user functions, evaluated on a context that "
+                "persists across programs: result, context and ordered call log must be the specification's")
 
 
 def c11(chk):
